@@ -214,6 +214,65 @@ M = [
  ('C13', 'ignore-in-ordinary-outgoing-aborts-later-packets', CONN,
   "            for listener in self.outgoing_packet_listeners:\n                listener.call_packet(packet)\n        except IgnorePacket:\n            pass",
   "            for listener in self.outgoing_packet_listeners:\n                try:\n                    listener.call_packet(packet)\n                except IgnorePacket:\n                    pass\n        except IgnorePacket:\n            pass"),
+ ('C14', 'no-break-after-catching-handler', CONN,
+  "                    handler(exc, exc_info)\n                    caught = True\n                    break",
+  "                    handler(exc, exc_info)\n                    caught = True"),
+ ('C14', 'final-handler-skipped-when-caught', CONN,
+  "        if final_handler not in (None, False):",
+  "        if final_handler not in (None, False) and not caught:"),
+ ('C14', 're-raise-with-final-false', CONN,
+  "        if final_handler is None and not caught:",
+  "        if not final_handler and not caught:"),
+ ('C14', 're-raise-even-if-caught', CONN,
+  "        if final_handler is None and not caught:",
+  "        if final_handler is None:"),
+ ('C14', 'connection-left-open-after-exception', CONN,
+  "            if (self.new_networking_thread or\n                    self.networking_thread).interrupt:\n                self.disconnect(immediate=True)",
+  "            if (self.new_networking_thread or\n                    self.networking_thread).interrupt:\n                pass"),
+ ('C14', 'early-handler-appended', CONN,
+  "            self._exception_handlers.insert(0, (handler_func, exc_types))",
+  "            self._exception_handlers.append((handler_func, exc_types))"),
+ ('C14', 'handler-exception-does-not-replace', CONN,
+  "                    handler(exc, exc_info)\n                    caught = True\n                    break\n                except Exception as new_exc:\n                    exc, exc_info = new_exc, sys.exc_info()",
+  "                    handler(exc, exc_info)\n                    caught = True\n                    break\n                except Exception as new_exc:\n                    pass"),
+ ('C14', 'interrupt-not-set-on-exception', CONN,
+  "        except Exception as e:\n            self.interrupt = True\n            self.connection._handle_exception(e, sys.exc_info())",
+  "        except Exception as e:\n            self.connection._handle_exception(e, sys.exc_info())"),
+ ('C14', 'exit-callback-exception-escapes', CONN,
+  "            self._run()\n            self.connection._handle_exit()\n        except Exception as e:",
+  "            self._run()\n        except Exception as e:"),
+ ('C14', 'exact-type-match-in-handlers', CONN,
+  "            if not exc_types or isinstance(exc, exc_types):",
+  "            if not exc_types or type(exc) in exc_types:"),
+ ('C19', 'non-dict-error-body', AUTH,
+  "        if not (isinstance(json_resp, dict) and\n                \"error\" in json_resp and \"errorMessage\" in json_resp):",
+  "        if not (\"error\" in json_resp and \"errorMessage\" in json_resp):"),
+ ('C19', 'authenticated-ignores-client-token', AUTH,
+  "        if not self.client_token:\n            return False\n", ""),
+ ('C19', 'refresh-keeps-old-client-token', AUTH,
+  "        self.access_token = json_resp[\"accessToken\"]\n        self.client_token = json_resp[\"clientToken\"]\n        self.profile.id_ = json_resp[\"selectedProfile\"][\"id\"]\n        self.profile.name = json_resp[\"selectedProfile\"][\"name\"]\n\n        return True\n\n    def validate",
+  "        self.access_token = json_resp[\"accessToken\"]\n        self.profile.id_ = json_resp[\"selectedProfile\"][\"id\"]\n        self.profile.name = json_resp[\"selectedProfile\"][\"name\"]\n\n        return True\n\n    def validate"),
+ ('C19', 'authenticate-stores-username-before-check', AUTH,
+  "        res = _make_request(AUTH_SERVER, \"authenticate\", payload)\n\n        _raise_from_response(res)\n\n        json_resp = res.json()\n\n        self.username = username",
+  "        self.username = username\n        res = _make_request(AUTH_SERVER, \"authenticate\", payload)\n\n        _raise_from_response(res)\n\n        json_resp = res.json()\n"),
+ ('C19', 'validate-true-for-any-2xx', AUTH,
+  "        if res.status_code == 204:\n            return True",
+  "        if res.status_code // 100 == 2:\n            return True"),
+ ('C19', 'join-without-authenticated-check', AUTH,
+  "        if not self.authenticated:\n            err = \"AuthenticationToken hasn't been authenticated yet!\"\n            raise YggdrasilError(err)",
+  "        if not self.access_token:\n            err = \"AuthenticationToken hasn't been authenticated yet!\"\n            raise YggdrasilError(err)"),
+ ('C19', 'invalidate-swallows-errors', AUTH,
+  "        if res.status_code != 204:\n            _raise_from_response(res)\n        return True\n\n    def join",
+  "        return True\n\n    def join"),
+ ('C19', 'cause-field-dropped', AUTH,
+  "        exception.yggdrasil_cause = json_resp.get(\"cause\")", "        pass"),
+ ('C19', 'join-payload-profile-name-only', AUTH,
+  "                             \"selectedProfile\": self.profile.to_dict(),",
+  "                             \"selectedProfile\": self.profile.name,"),
+ ('C19', 'signout-endpoint-typo', AUTH,
+  "        res = _make_request(AUTH_SERVER, \"signout\",", "        res = _make_request(AUTH_SERVER, \"sign_out\","),
+ ('C19', 'status-code-not-set', AUTH,
+  "    exception.status_code = res.status_code\n", "    exception.status_code = None\n"),
 ]
 
 
